@@ -1,4 +1,6 @@
 import QR.Model.Compile
+import QR.Spec.Reader
+import QR.Spec.Penalty
 /-
 Line-protocol driver (native executable `qrdrv`, Mathlib-free).
 One request per line: `<op> <arg> ...` (whitespace separated); one reply per line.
@@ -45,6 +47,19 @@ def fmtMat (m : Mat) : String :=
     match c with | some true => '1' | some false => '0' | none => '.'))
 def fmtBlocks (l : List (Nat × Nat)) : String :=
   if l.isEmpty then "-" else ";".intercalate (l.map fun (a, b) => s!"{a}:{b}")
+
+def symOfBMat (M : BMat) : Spec.Sym :=
+  let A : Array (Array Bool) := (M.map List.toArray).toArray
+  { n := A.size, get := fun r c => (A.getD r #[]).getD c false }
+
+def fmtPSegs (l : List Spec.PSeg) : String :=
+  if l.isEmpty then "-" else ";".intercalate (l.map fun s => s!"{s.mode.indicator}:{fmtList s.data}")
+
+def specRead (M : BMat) : String :=
+  if M.any (fun row => row.length ≠ M.length) then "fail not-square" else
+  match Spec.read (symOfBMat M) with
+  | .error e => "fail " ++ e.name
+  | .ok r => s!"ok {r.version} {r.level.indicator} {r.mask} {if r.tailConformant then 1 else 0} {fmtPSegs r.segs} {fmtList r.dataCodewords}"
 
 def reply (r : R String) : String :=
   match r with
@@ -111,6 +126,40 @@ def handle (toks : List String) : Option String :=
       let n ← parseNat n; let d ← parseNat d
       let x := if 20 * d ≥ 10 * (n * n) then 20 * d - 10 * (n * n) else 10 * (n * n) - 20 * d
       pure ("ok " ++ toString ((x / (n * n)) * 10))
+  | ["spec.read", m] => do let m ← parseBMat m; pure (specRead m)
+  | ["spec.penalty", m] => do let m ← parseBMat m; pure ("ok " ++ toString (Spec.penalty m))
+  | ["spec.n1", m] => do let m ← parseBMat m; pure ("ok " ++ toString (Spec.N1 m m.length))
+  | ["spec.n2", m] => do let m ← parseBMat m; pure ("ok " ++ toString (Spec.N2 m))
+  | ["spec.n3", m] => do let m ← parseBMat m; pure ("ok " ++ toString (Spec.N3 m m.length))
+  | ["spec.n4", m] => do let m ← parseBMat m; pure ("ok " ++ toString (Spec.N4 m m.length))
+  | ["spec.iscodeword", e, cw] => do
+      let e ← parseNat e; let cw ← parseList cw
+      pure ("ok " ++ (if Spec.isCodeword e cw then "1" else "0"))
+  | ["spec.blocks", v, l] => do
+      let v ← parseNat v; let l ← parseNat l
+      match Spec.Level.ofIndicator l with
+      | some l => pure ("ok " ++ fmtBlocks (Spec.isoBlocks v l))
+      | none => none
+  | ["spec.format", d] => do let d ← parseNat d; pure ("ok " ++ toString (Spec.formatWord d))
+  | ["spec.version", v] => do let v ← parseNat v; pure ("ok " ++ toString (Spec.versionWord v))
+  | ["spec.align", v] => do let v ← parseNat v; pure ("ok " ++ fmtList (Spec.alignmentCentres v))
+  | ["spec.function", v] => do
+      let v ← parseNat v
+      let n := Spec.size v
+      pure ("ok " ++ "/".intercalate ((List.range n).map fun r => String.ofList ((List.range n).map fun c =>
+        match Spec.fixedColour v r c with
+        | some true => '1' | some false => '0'
+        | none => if Spec.isFunction v r c then 'f' else '.')))
+  | ["spec.minversion", start, l, segs] => do
+      let start ← parseNat start; let l ← parseNat l
+      let l ← Spec.Level.ofIndicator l
+      let segs ← parseBlocks segs      -- (mode indicator : count) pairs
+      let segs ← segs.mapM fun (m, n) => (Spec.Mode.ofIndicator m).map (·, n)
+      pure ("ok " ++ (match Spec.minVersion start l segs with | some v => toString v | none => "none"))
+  | ["spec.capacity", m, v, l] => do
+      let m ← parseNat m; let v ← parseNat v; let l ← parseNat l
+      let m ← Spec.Mode.ofIndicator m; let l ← Spec.Level.ofIndicator l
+      pure ("ok " ++ toString (Spec.isoCapacity m v l))
   | _ => none
 
 partial def loop (hin : IO.FS.Stream) (hout : IO.FS.Stream) : IO Unit := do
